@@ -39,6 +39,7 @@ class Oracles:
         self.concrete = concrete          # dict of concrete data for translator validation, or None
         self.convs = []                   # (arg elems, result elems) for functional consistency
         self.strings = []
+        self.keys = {}                    # memo key -> the key's code points (for functional consistency of the tables)
 
     def fresh(self, prefix):
         self.n += 1
@@ -98,6 +99,17 @@ class Oracles:
         k = (name, key_of_elems(arg))
         if k in self.memo:
             return self.memo[k]
+        # a table is a function of the key: another look-up whose key may be the same string (other symbols, equal values) forks on that
+        for (n2, k2), v2 in list(self.memo.items()):
+            if n2 == name and isinstance(k2, tuple) and (n2, k2) in self.keys and len(self.keys[(n2, k2)]) == len(arg) and any(is_sym(c) for c in list(arg) + list(self.keys[(n2, k2)])):
+                e = seq_eq(list(self.keys[(n2, k2)]), list(arg))
+                if e is False:
+                    continue
+                if e is True or self.st.branch(e):
+                    self.memo[k] = v2
+                    self.keys[k] = tuple(arg)
+                    return v2
+        self.keys[k] = tuple(arg)
         real = self.shape.get("real_tables")
         if real is not None and name in real and all(not is_sym(ch) for ch in arg):
             # concrete argument on a special-term shape: the bundled table answers (an over-approximating oracle would claim
@@ -1631,7 +1643,7 @@ def obl_suffix(check, conv_table, thorough=False, budget_s=None):
     if thorough:
         shapes += base_shapes([("", "")], [3], conv_table, **dict(kw, distinct=False, fixed={"include_english": False, "ansi": False, "smart_quote": False}))
     # the base typed first (its list computed by the code from the oracles: dictionary word, bundled / user auto-correct entry), then the suffix
-    for ac, uac, dm in ((True, False, 1), (False, True, 1), (True, True, 0)):
+    for ac, uac, dm in (((True, False, 1), (False, True, 1), (True, True, 0)) if thorough else ((False, False, 1), (True, True, 0))):
         shapes += base_shapes([("", "")], [3] + ([4] if thorough and dm else []), conv_table, **dict(kw, mode="suffix_pair", pair_base=2, autocorrect=ac, user_autocorrect=uac, dict_max=dm,
                                                                                                    fixed={"include_english": False, "ansi": False, "smart_quote": False}))
     check.bounds["assembly_suffix"] = dict(word="3%s symbolic letters/digits: every split point, suffix known or not" % (" or 4" if thorough else ""),
